@@ -198,6 +198,8 @@ def _parse_into(unit, path, seen, assumed):
             cur_section = (tag[1:], m.group(1) if m else None)
         elif tag == '@decreases':
             cur_section = ('decreases', None)
+            if rest:
+                buf.append(rest)
         elif tag == '@loop':
             cur_section = ('loop', int(rest_nc))
         elif tag == '@ghost':
@@ -495,10 +497,13 @@ def find_fragment(src, body_s, body_e, frag):
 
 REWRITE_RULES = {
     # rule: list of (regex, replacement)
-    'R1': [
-        (re.compile(r'\(([^()]*)\)\.to_be_bytes\(\)'), r'verif_to_be_bytes_u64((\1))'),
-        (re.compile(r'\b([A-Za-z_][A-Za-z0-9_]*)\.to_be_bytes\(\)'), r'verif_to_be_bytes(\1)'),
+    'R1u': [
+        (re.compile(r'\(([^()]*)\)\.to_be_bytes\(\)'), r'verif_u64_to_be_bytes((\1))'),
+        (re.compile(r'\b([A-Za-z_][A-Za-z0-9_]*)\.to_be_bytes\(\)'), r'verif_u64_to_be_bytes(\1)'),
         (re.compile(r'\bu64::from_be_bytes\(([^()]*)\)'), r'verif_u64_from_be_bytes(\1)'),
+    ],
+    'R1i': [
+        (re.compile(r'\b([A-Za-z_][A-Za-z0-9_]*)\.to_be_bytes\(\)'), r'verif_i64_to_be_bytes(\1)'),
         (re.compile(r'\bi64::from_be_bytes\(([^()]*)\)'), r'verif_i64_from_be_bytes(\1)'),
     ],
     'R2': [
@@ -733,8 +738,14 @@ class Extractor:
                 # R14: bind the tail expression (`let verif_tail = <tail>; <ghost> verif_tail`).  Pure insertions:
                 # evaluation order and result are those of the original tail expression.
                 fs_, fe_ = find_fragment(src, body_s, body_e, a[1])
+                # innermost brace block enclosing the fragment: its closing brace ends the tail expression
+                ti = src.tok_index_at(fs_)
+                k = ti - 1
+                while not (sig[k].text == '{' and sig[k].match > ti):
+                    k -= 1
+                blk_end = sig[sig[k].match].start
                 p.insert(fs_, 'let verif_tail = ')
-                p.insert(body_e, ';\n' + txt + '\nverif_tail\n')
+                p.insert(blk_end, ';\n' + txt + '\nverif_tail\n')
                 self.log.append({'kind': 'insert-exec', 'rule': 'R14', 'file': src.path, 'line': src.line_of(fs_),
                                  'original': '', 'replacement': 'let verif_tail = <tail expression>; <ghost>; verif_tail', 'note': 'tail expression let-bound so that ghost code can follow the call'})
             elif a[0] in ('before-inline', 'after-inline'):
@@ -906,8 +917,12 @@ class Extractor:
         src = self.source(file)
         out = []
         for n in names:
+            attr = ''
+            if n.endswith('!nl'):
+                n = n[:-3]
+                attr = '#[verifier::nonlinear]\n'   # annotation only: lets Z3 evaluate the constant product
             it = self.find_top(src, 'const', n)
-            out.append(self.plain_item(src, it, '%s :: const %s' % (file, n)))
+            out.append(attr + self.plain_item(src, it, '%s :: const %s' % (file, n)))
         return '\n'.join(out) + '\n'
 
     def item(self, file, what):
